@@ -52,6 +52,7 @@ func c19(c *Ctx) {
 	c.plainSendsAreTabled()
 	c.consumersDrainUntilClosed()
 	c.connectionsCloseWithTheServer()
+	c.condSignalsUnderLock()
 }
 
 // ---- R19.9 ---------------------------------------------------------------------------------
@@ -1773,4 +1774,92 @@ func (c *Ctx) connectionsCloseWithTheServer() {
 		R.Check(ok, "R19.13", c.name(f)+"|accepted connection closed when serve returns", P.Pos(conn.Pos()), "defer conn.Close() in serve", "an accepted connection is not closed by a defer of Server.serve: when the server stops, sessions that are not logged in keep their connection and goroutines")
 	}
 	R.Min("R19.13", "connections accepted in Server.serve", n, 1)
+}
+
+// ---- R19.15 --------------------------------------------------------------------------------
+
+// condSignalsUnderLock: a sync.Cond waiter tests its predicate and calls Wait while holding cond.L.  A
+// Broadcast/Signal that is issued without cond.L, by a function that did not pass through cond.L since it
+// changed the predicate, can fall between the waiter's test and its Wait: the wake-up is lost and the waiter
+// (the queue's pump goroutine) sleeps for ever.  Accepted forms: cond.L held at the call (in the function, in
+// the function running the closure, or in every caller), or an Unlock of cond.L that dominates the call
+// ("lock; change; unlock; signal").
+func (c *Ctx) condSignalsUnderLock() {
+	P, R := c.P, c.R
+	R.Explain("R19.15", "every sync.Cond Broadcast/Signal is issued with cond.L held, or after the function passed through cond.L (an Unlock of cond.L dominates the call): otherwise the wake-up can fall between a waiter's predicate test and its Wait and is lost (goroutine that never ends).")
+	n := 0
+	for _, f := range c.productFuncs() {
+		var held func(ssa.Instruction) map[string]bool
+		for _, cs := range engine.Calls(f) {
+			sc := cs.Common().StaticCallee()
+			if sc == nil || sc.Pkg == nil || sc.Pkg.Pkg.Path() != "sync" || len(cs.Common().Args) == 0 {
+				continue
+			}
+			if rn := engine.RecvNamed(sc); rn == nil || rn.Obj().Name() != "Cond" || (sc.Name() != "Broadcast" && sc.Name() != "Signal") {
+				continue
+			}
+			n++
+			key := c.name(f) + "|Cond." + sc.Name()
+			base := engine.AccessPath(cs.Common().Args[0])
+			if base == "" {
+				R.Fail("R19.15", key, P.Pos(cs.Pos()), "the condition variable signalled here cannot be named (no access path): undecided")
+				continue
+			}
+			want := base + ".L"
+			if held == nil {
+				held = engine.HeldAt(f)
+			}
+			h := held(cs.Instr)
+			ok := h[want]
+			how := "cond.L held at the call"
+			if !ok {
+				for _, op := range engine.LockOps(f) {
+					if op.Acquire || op.Deferred || op.Path != want {
+						continue
+					}
+					ob, cb := op.Instr.Block(), cs.Instr.Block()
+					if ob == cb {
+						for _, in := range ob.Instrs {
+							if in == op.Instr {
+								ok = true
+								break
+							}
+							if in == cs.Instr {
+								break
+							}
+						}
+					} else if ob.Dominates(cb) {
+						ok = true
+					}
+					if ok {
+						how = "an Unlock of cond.L dominates the call (the function passed through the lock)"
+						break
+					}
+				}
+			}
+			if !ok && f.Parent() != nil && c.closureRunsUnderLock(f, "L") {
+				ok, how = true, "closure run while the creator holds cond.L"
+			}
+			if !ok && f.Parent() == nil {
+				root, rest := base, ""
+				if i := strings.Index(base, "."); i >= 0 {
+					root, rest = base[:i], base[i+1:]
+				}
+				for pi, p := range f.Params {
+					if p.Name() == root {
+						lp := "L"
+						if rest != "" {
+							lp = rest + ".L"
+						}
+						if c.heldByAllCallers(f, pi, lp, 0) {
+							ok, how = true, "cond.L held by every caller"
+						}
+					}
+				}
+			}
+			R.Check(ok, "R19.15", key, P.Pos(cs.Pos()), how,
+				"sync.Cond."+sc.Name()+" is issued without "+want+" held (held: "+engine.HeldString(h)+") and the function did not pass through that lock before: the wake-up can fall between a waiter's predicate test and its Wait and is lost - the waiting goroutine (queue pump) never ends")
+		}
+	}
+	R.Min("R19.15", "sync.Cond Broadcast/Signal call sites", n, 2)
 }
